@@ -161,8 +161,11 @@ def run_case(case, keep_dir=None):
             for i, r in enumerate(rnd):
                 url = 'http://h.test/p{}/r{}?q={}'.format(rnd_index, serial, i)
                 serial += 1
+                post_body = None
+                if r['method'] == 'GET' and rng.random() < 0.15:
+                    post_body = bytes(rng.choice(b'abc=&%20') for _ in range(rng.choice([0, 1, 17, 300, 5000, 9000])))
                 responses.append({'pieces': pieces_for(rng, r, case['seg_mode']), 'then': r['then'],
-                                  'method': r['method'], 'url': url})
+                                  'method': r['method'], 'url': url, 'post_body': post_body})
                 if visits is not None and i % 2 == 1:
                     # pre-seed a visit so that this response is recorded as a revisit
                     from harness import refwarc
